@@ -203,6 +203,17 @@ CHECKS = {
         technique="Lean 4 proof over a rational model of the ISIMIP pipeline and the pr transfer functions + differential correspondence",
         design="§4 C10",
     ),
+    "C06": dict(
+        text=("Proof (Lean 4). Skeleton level (any element type): for every window function that is an element-wise map of the corrected sample with a context depending on the three window samples only up to permutation, permuting each of the three dated series "
+              "(values with their days of year / years, each with its own permutation) permutes the output exactly like cm_future (like obs for DeltaChange); the same for the CDFt / QDM loop over year windows, for month mode, and for window functions that may raise. "
+              "Instantiation: every window function of the eight debiasers is proved to be of that form (LinearScaling, DeltaChange, parametric and non-parametric QuantileMapping, ECDFM, QDM, CDFt for all method pairs without tie-freeness, SDM absolute and relative and ISIMIP step 6 "
+              "under the tie-free guard), and the seasonal + year-window composition of CDFt / QDM is proved on dated pairs (value, year). Tier A: window kernels and LS / DC kernels; tier B: skeleton probes on shuffled inputs and layer-N correspondences; "
+              "oracle: random / block / rotate / reverse permutations on all eight real debiasers incl. year windows, ISIMIP month mode and pr."),
+        note=("PARTIAL for the whole ISIMIP window: proved without a bound/threshold pair (step 4's rank re-insertion of sorted draws is exercised by seeded oracle cases only), with the same oracle decisions (KS, significance) in every window, and for detrending under tie-free detrended window samples. "
+              "Rank-based statements carry Nodup (the property's own guard; np.argsort is not stable). CDFt SSR is random and excluded."),
+        technique="Lean 4 proof over the polymorphic write-back skeleton + per-debiaser instantiation + differential correspondence on permuted inputs",
+        design="§4 C06",
+    ),
 }
 
 
